@@ -45,7 +45,11 @@ func CreateEmsgAhead(segStart, segEnd, timescale uint64, perMinute int) (*mp4.Em
 	case 3:
 		spliceInsertTimes = []uint64{minuteStart + 10*timescale, minuteStart + 36*timescale, minuteStart + 46*timescale}
 	}
-	// We do not need to look into next minute, since first start is 10s after full minute.
+	// A segment spanning a minute start may contain the announce time of the first splice of the next minute.
+	nextMinuteStart := minuteStart + 60*timescale
+	if segEnd > nextMinuteStart {
+		spliceInsertTimes = append(spliceInsertTimes, nextMinuteStart+10*timescale)
+	}
 	inInterval := false
 	var spliceTime uint64
 	for _, sit := range spliceInsertTimes {
